@@ -845,7 +845,9 @@ def effects_run(fns, table, comb):
     if m is None:
         undecided_e.append('fn init(..) not found in sv-parser-parser/src/lib.rs (anchor lost)')
     else:
-        if re.search(r'\b(if|match|while|for|loop|return)\b|\?', m.group(1)):
+        cf_ = re.search(r'\b(if|match|while|for|loop|return)\b|\?', m.group(1))
+        if cf_ and any(m.group(1).find(r_) > cf_.start() or m.group(1).find(r_) < 0 for r_ in ('nom_packrat::init!', 'clear_directive', 'clear_version')):
+            # (control flow AFTER the three resets does not concern them)
             failures.append(fail('init', 'C07.init-resets-unconditionally', 'init() contains control flow: a reset that is skipped on some path leaves state behind', ['C07', 'C13', 'C15', 'C17', 'C20'], Dummy('sv-parser-parser/src/lib.rs', lib_raw[:m.start()].count('\n') + 1)))
         for need in ('nom_packrat::init!();', 'clear_directive();', 'clear_version();'):
             if need not in init_body:
